@@ -321,8 +321,11 @@ def main():
     if only:
         viol = [r for r in viol if (r['rule'], r['instance']) == only]
     new_viol, listed = [], []
+    import re as _re
     for r in viol:
-        if (prop, r['rule'], r['instance']) in kf:
+        # the same rule instance evaluated on another build configuration ("[call] ...", "[tracing] ...") is the same finding
+        bare = _re.sub(r'^\[(call|tracing|assert|nofile)\] ', '', r['instance'])
+        if (prop, r['rule'], r['instance']) in kf or (prop, r['rule'], bare) in kf:
             listed.append(r)
         else:
             new_viol.append(r)
